@@ -186,6 +186,27 @@ func (v *Verifier) VerifyFunctionBounded(fn *ssa.Function, fc *FuncContract, bou
 		c.used++
 	}
 	nPre := len(root.assumes)
+	for _, ln := range fc.Uses {
+		var lem *Lemma
+		for _, l := range v.cs.Lemmas {
+			if l.Name == ln && (l.Pkg == fc.Pkg || lem == nil) {
+				lem = l
+			}
+		}
+		if lem == nil {
+			fx.fail("uses %s: no such lemma", ln)
+		}
+		lm := ModeInt
+		if lem.Mode == "bv" {
+			lm = ModeBV
+		}
+		if lm != mode {
+			fx.fail("uses %s: lemma is in %s mode, function in %s mode", ln, lem.Mode, mode)
+		}
+		lenv := &Env{fx: fx, st: st, vars: map[string]SV{}, pkg: fx.pkgTypes()}
+		root.axioms = append(root.axioms, fx.evalBool(lenv, lem.Expr))
+		root.noteOnce("uses lemma " + ln + " (proved as its own obligation)")
+	}
 	fx.initGhost(st)
 	fx.runGhost("entry", st, fx.entryEnv(st))
 	rets := fx.runBody(st, True, args)
